@@ -77,9 +77,41 @@ fn op_bdeduce_sym(ints: &[i64], sc: &[V]) -> Out {
     bok2(&l, &r)
 }
 
+// binomial fusion operator vs the multinomial one on the converted operands
+fn op_bvs(ints: &[i64], sc: &[V]) -> Out {
+    need!(ints.len() == 1 && sc.len() == 9);
+    let fo = match ints[0] {
+        0 => FuseOp::ACm,
+        1 => FuseOp::Avg,
+        2 => FuseOp::Wgh,
+        _ => return Out::Unsup,
+    };
+    let g = sc[8];
+    // multinomial side first (it never validates), so that a recorded `rej` belongs to L
+    let mx = Opinion1d::<V, 2>::from(bop(&sc[..4]));
+    let my = Opinion1d::<V, 2>::from(bop(&sc[4..8]));
+    let mr: Opinion1d<V, 2> = fo.fuse(&mx, &my);
+    let r = BOpinion::<V>::from(mr);
+    let (x, y) = (bop(&sc[..4]), bop(&sc[4..8]));
+    let l = match ints[0] {
+        0 => x.cfuse(&y),
+        1 => x.afuse(&y, g),
+        _ => x.wfuse(&y, g),
+    };
+    match l {
+        Ok(l) => bok2(&l, &r),
+        Err(e) => {
+            let mut s = String::new();
+            bdump(&r, &mut s);
+            Out::ErrWith(e.0, s)
+        }
+    }
+}
+
 fn op_bi(op: &str, var: &[&str], ints: &[i64], sc: &[V]) -> Out {
     let has = |t: &str| var.iter().any(|v| *v == t);
     match op {
+        "bvs" => op_bvs(ints, sc),
         "blaw" => op_blaw(ints, sc),
         "bdeduce_sym" => op_bdeduce_sym(ints, sc),
         "bsimplex_new" => {
